@@ -726,7 +726,7 @@ fn byte_strings(g: &mut Rng, n: usize, thorough: bool) -> Vec<Vec<u8>> {
     }
     let nb = (n + 7) / 8;
     for len in nb.saturating_sub(1)..=nb + 2 {
-        if len < 3 || len > 200 {
+        if len < 3 || len > 600 {
             continue;
         }
         for fill in [0u8, 0xff] {
@@ -742,6 +742,20 @@ fn byte_strings(g: &mut Rng, n: usize, thorough: bool) -> Vec<Vec<u8>> {
         for _ in 0..(if thorough { 40 } else { 8 }) {
             out.push((0..len).map(|_| g.next() as u8).collect());
         }
+    }
+    // lengths around storage and word boundaries, whatever the capacity (for small capacities these are
+    // over-long and must be rejected): a few fills with a delimiter-like, a full and a zero last byte
+    for len in [3usize, 4, 5, 8, 9, 15, 16, 17, 31, 32, 33, 63, 64, 65, 127, 128, 129, 130, 255, 256, 257, 511, 512, 513] {
+        for fill in [0u8, 0xff] {
+            for last in [0u8, 1, 0x80, 0xff] {
+                let mut v = vec![fill; len];
+                v[len - 1] = last;
+                out.push(v);
+            }
+        }
+        let mut v: Vec<u8> = (0..len).map(|_| g.next() as u8).collect();
+        v[len - 1] = 1;
+        out.push(v);
     }
     out
 }
@@ -877,6 +891,7 @@ pub fn run_withlen(ctx: &mut Ctx) {
 /// `BitList<N>::resize::<M>` for fixed pairs (N, M)
 pub fn run_resize<N: Unsigned + Clone, M: Unsigned + Clone>(ctx: &mut Ctx) {
     let (n, m) = (N::to_usize(), M::to_usize());
+    ctx.out.r("C13", "bitbytes", BitList::<N>::max_len() == n && BitList::<M>::max_len() == m, &["max_len_is_capacity", "bf_resize", &n.to_string(), &m.to_string()]);
     let mut g = Rng::new(ctx.seed ^ 0x5e51 ^ ((n as u64) << 20) ^ m as u64);
     let mut lens = vec![0, 1, n / 2, n.saturating_sub(1), n];
     lens.retain(|l| *l <= n);
@@ -936,6 +951,42 @@ pub fn run_bit_extremes(ctx: &mut Ctx) {
     }
     small::<U1099511627776>(ctx, "BL2^40");
     small::<CapMax>(ctx, "BLusizeMAX");
+    small::<Sub1<CapMax>>(ctx, "BLusizeMAX-1");
+    small::<Sub1<Shleft<U1, typenum::U63>>>(ctx, "BL2^63-1");
+    small::<Shleft<U1, typenum::U63>>(ctx, "BL2^63");
+    // bitvectors whose size is within a byte of usize::MAX (and other sizes no input can have): every input is
+    // rejected with an error, metadata is max(1, ceil(N/8)) on both sides, nothing overflows
+    fn fixed<N: Unsigned + Clone>(ctx: &mut Ctx, name: &str) {
+        let n = N::to_usize();
+        let want_len = std::cmp::max(1, n / 8 + (n % 8 != 0) as usize);
+        let meta = catch_unwind(AssertUnwindSafe(|| {
+            (<ssz::BitVector<N> as ssz::Encode>::is_ssz_fixed_len(), <ssz::BitVector<N> as ssz::Encode>::ssz_fixed_len(),
+             <ssz::BitVector<N> as ssz::Decode>::is_ssz_fixed_len(), <ssz::BitVector<N> as ssz::Decode>::ssz_fixed_len())
+        }));
+        ctx.out.r("C05", "bitbytes", meta.is_ok(), &["extreme_bitvector_metadata_no_panic", "bit-extremes", name]);
+        ctx.out.r("C14", "bitbytes", matches!(&meta, Ok((true, a, true, b)) if *a == want_len && *b == want_len), &["extreme_bitvector_fixed_len", "bit-extremes", name]);
+        for b in [vec![], vec![0u8], vec![1], vec![0xff; 8], vec![0; 9], vec![0x5a; 32], vec![0; 4096]] {
+            let hx = hex(&b);
+            let r1 = catch_unwind(AssertUnwindSafe(|| ssz::BitVector::<N>::from_bytes(SmallVec::from_slice(&b)).map(|_| ())));
+            let r2 = catch_unwind(AssertUnwindSafe(|| ssz::BitVector::<N>::from_ssz_bytes(&b).map(|_| ())));
+            let r3 = catch_unwind(AssertUnwindSafe(|| <Vec<ssz::BitVector<N>> as ssz::Decode>::from_ssz_bytes(&b).map(|v| v.len())));
+            let r4 = catch_unwind(AssertUnwindSafe(|| <(u8, ssz::BitVector<N>) as ssz::Decode>::from_ssz_bytes(&b).map(|_| ())));
+            ctx.out.r("C05", "bitbytes", r1.is_ok() && r2.is_ok() && r3.is_ok() && r4.is_ok(), &["extreme_bitvector_no_panic", "bit-extremes", name, &hx]);
+            // no input of these sizes has the required length
+            ctx.out.r("C14", "bitbytes", matches!(&r1, Ok(Err(_))) && matches!(&r2, Ok(Err(_))), &["extreme_bitvector_rejects", "bit-extremes", name, &hx]);
+            ctx.out.r("C14", "bitbytes", matches!(&r3, Ok(Err(_)) | Ok(Ok(0))) && (matches!(&r3, Ok(Ok(0))) == b.is_empty()) && matches!(&r4, Ok(Err(_))), &["extreme_bitvector_nested_rejects", "bit-extremes", name, &hx]);
+        }
+    }
+    fixed::<CapMax>(ctx, "BVusizeMAX");
+    fixed::<Sub1<CapMax>>(ctx, "BVusizeMAX-1");
+    fixed::<Sub1<Sub1<CapMax>>>(ctx, "BVusizeMAX-2");
+    fixed::<typenum::Diff<CapMax, typenum::U6>>(ctx, "BVusizeMAX-6");
+    fixed::<typenum::Diff<CapMax, typenum::U7>>(ctx, "BVusizeMAX-7");
+    fixed::<typenum::Diff<CapMax, typenum::U8>>(ctx, "BVusizeMAX-8");
+    fixed::<Shleft<U1, typenum::U63>>(ctx, "BV2^63");
+    fixed::<Sub1<Shleft<U1, typenum::U63>>>(ctx, "BV2^63-1");
+    fixed::<U1099511627776>(ctx, "BV2^40");
+    fixed::<typenum::Sum<U1099511627776, U1>>(ctx, "BV2^40+1");
     {
         // a bitlist whose length does not fit 32 bits: 2^29 + 1 bytes, delimiter in the last byte
         let n = (1usize << 29) + 1;
@@ -1073,7 +1124,21 @@ pub fn run_serde<B: BK>(ctx: &mut Ctx) {
             }
         }
     }
-    for s in ["", "0", "0x", "0X", "x", "0x0", "0x00", "0x01", "0xff", "0xFF", "0xfF", "00", "0x ", "0x0g", "0x+1", "0xé", "0x0001", "0x0100", "1x00", "0x00ff00"] {
+    // every printable ASCII character (and a few others) at the two positions of the first and of the last byte
+    // of one valid string: anything that is not a hex digit must be refused
+    if let Some(st) = strings.iter().find(|s| s.len() >= 4 && s.starts_with("0x")).cloned() {
+        let c: Vec<char> = st.chars().collect();
+        let mut pos = vec![2usize, 3, c.len() - 2, c.len() - 1, 0, 1];
+        pos.dedup();
+        for p in pos {
+            for ch in (0x20u8..0x7f).map(|b| b as char).chain(['\t', '\n', '\0', 'é', '０', 'Ａ']) {
+                let mut d = c.clone();
+                d[p] = ch;
+                strings.push(d.into_iter().collect());
+            }
+        }
+    }
+    for s in ["", "0", "0x", "0X", "x", "0x0", "0x00", "0x01", "0xff", "0xFF", "0xfF", "00", "0x ", "0x0g", "0x+1", "0x-1", "0x+f", "0x1+", "0x 1", "0x1 ", "0x_1", "0x1_", "0x0x", "0x0X01", "+0x01", "0x00+1", "0xé", "0x0001", "0x0100", "1x00", "0x00ff00"] {
         strings.push(s.to_string());
     }
     // hex of arbitrary (valid and invalid) SSZ strings
@@ -1248,6 +1313,15 @@ pub fn run_arb_extremes(ctx: &mut Ctx) {
     }
     one::<U4294967296>(ctx, "BL2^32");
     one::<U1099511627776>(ctx, "BL2^40");
+    {
+        use typenum::{Shleft, Sub1, U1, U63, U64};
+        one::<Sub1<Shleft<U1, U64>>>(ctx, "BLusizeMAX");
+        one::<Sub1<Sub1<Shleft<U1, U64>>>>(ctx, "BLusizeMAX-1");
+        one::<typenum::Diff<Sub1<Shleft<U1, U64>>, typenum::U7>>(ctx, "BLusizeMAX-7");
+        one::<Shleft<U1, U63>>(ctx, "BL2^63");
+        one::<Sub1<Shleft<U1, U63>>>(ctx, "BL2^63-1");
+        one::<typenum::U10000000000000000000>(ctx, "BL10^19");
+    }
 }
 
 /// Calls `$f::<B>($ctx)` for every bitfield behaviour / capacity of the catalogue.
